@@ -278,6 +278,11 @@ func runC05(r *R) {
 				}
 				ok = false
 			}
+			if ok && !sawSrv {
+				// `if srv.ReadOnly { mnt.ReadOnly = true }`: the constant is stored under the server's flag
+				g, _ := Guard(f, nil, st, TrueC("srv.ReadOnly", func(v ssa.Value) bool { return IsFieldLoad(v, "sdk/go/arvados.KeepService", "ReadOnly") }))
+				sawSrv = g
+			}
 			r.Check(ok && sawSrv, "C05-R4", f, "mnt.ReadOnly = mnt.ReadOnly || srv.ReadOnly", st.Pos(), "never cleared; includes the server's flag", "mount read-only flag can be cleared, or the server's read-only flag is no longer propagated")
 		}
 		if n == 0 {
